@@ -6,6 +6,7 @@ import (
 	"math"
 	"math/rand"
 	"reflect"
+	"strings"
 
 	"github.com/ctessum/geom"
 	"github.com/ctessum/geom/proj"
@@ -107,7 +108,21 @@ func freshAnswer(sd, dd, k int) string {
 	return internXY(x, y, err, out)
 }
 
+// the text a history parses for definition d: in every other case the parameters that equal their defaults (a zero
+// false origin) are left out of the definitions whose set-up supplies them - the reference is the same
+// one, and the fresh table is always computed from the full spelling
+func c10HistText(d int, minimal bool) string {
+	t := c10Defs[d-1].text
+	if minimal && (d == 2 || d == 4) {
+		for _, tok := range []string{" +x_0=0.0", " +x_0=0", " +y_0=0"} {
+			t = strings.Replace(t, tok, "", 1)
+		}
+	}
+	return t
+}
+
 func runC10Hist(c map[string]interface{}) []Event {
+	minimal := (len(arr(c["ops"]))+int(seed()))%2 == 1
 	var srs []*proj.SR
 	var srDef []int
 	for _, d := range arr(c["named"]) {
@@ -128,7 +143,7 @@ func runC10Hist(c map[string]interface{}) []Event {
 		case "parse":
 			e := Event{"ev": "parse", "a": a, "out": "ok"}
 			if c10Defs[a-1].name == "" {
-				s, err := proj.Parse(c10Defs[a-1].text)
+				s, err := proj.Parse(c10HistText(a, minimal))
 				if err != nil {
 					e["out"] = "err:" + err.Error()
 				}
